@@ -6,6 +6,8 @@ Differences the options are allowed to make (unused names / all-zero terms kept 
 from __future__ import annotations
 
 import importlib
+
+import numpy
 import itertools
 import random
 import sys
@@ -48,7 +50,58 @@ def _raw_inputs(x):
     return x
 
 
+def body_meta(ctx: H.BaseCtx):
+    """Native only: shape, dtype and value of a fixed set of operations on operands the exact carrier has no notion of (narrow
+    dtypes, arrays without elements) must be the same under the case's option configuration as under the defaults."""
+    import numpoly
+    from .. import model as M
+
+    if ctx.symbolic:
+        return
+    q0, q1 = numpoly.variable(2)
+
+    def zoo():
+        out = {}
+        for dt in ("float64", "float32", "int8", "uint16"):
+            out["empty(0,3) " + dt] = numpoly.polynomial(numpy.zeros((0, 3), dtype=dt))
+            out["empty(0,) " + dt] = numpoly.polynomial(numpy.zeros((0,), dtype=dt)) * 1
+            out["vec " + dt] = numpoly.polynomial(numpy.array([1, 2, 3], dtype=dt))
+        return out
+
+    operations = [
+        ("x + q1", lambda x: x + q1), ("x * q1", lambda x: x * q1), ("-x", lambda x: -x), ("x - q1", lambda x: x - q1), ("x * (q0 + 1)", lambda x: x * (q0 + 1)),
+        ("sum(x, 0)", lambda x: numpoly.sum(x, 0)), ("concatenate([x, x])", lambda x: numpoly.concatenate([x, x])), ("x ** 2", lambda x: x ** 2),
+        ("derivative(x*q0*q1, q0)", lambda x: numpoly.derivative(x * q0 * q1, "q0")), ("(x*q1)(q1=2)", lambda x: (x * q1)(q1=2)), ("x.astype(float)", lambda x: x.astype(float)),
+        ("where(x == x, x, q0)", lambda x: numpoly.where(numpy.ones(x.shape, dtype=bool), x, q0)),
+    ]
+    current = numpoly.get_options()
+    for oname, f in operations:
+        for zname in zoo():
+            try:
+                with numpoly.global_options(**numpoly.get_options(defaults=True)):
+                    ref = f(zoo()[zname])
+            except Exception:
+                continue  # what the defaults refuse is not this property's business
+            try:
+                got = f(zoo()[zname])
+            except Exception as e:
+                ctx.fail("exception", "%s on %s raises %s under %s but not under the defaults" % (oname, zname, type(e).__name__, {k: v for k, v in current.items() if k in BOOLS[:2]}))
+                continue
+            _shp = lambda v: tuple(getattr(v, "shape", ()))
+            if _shp(got) != _shp(ref):
+                ctx.fail("shape", "%s on %s: shape %s, under the defaults %s" % (oname, zname, _shp(got), _shp(ref)))
+            elif getattr(got, "dtype", None) != getattr(ref, "dtype", None):
+                ctx.fail("dtype", "%s on %s: dtype %s, under the defaults %s" % (oname, zname, getattr(got, "dtype", None), getattr(ref, "dtype", None)))
+            else:
+                try:
+                    ctx.expect_model(got, M.to_model(ref), "%s on %s" % (oname, zname), rtol=0)
+                except Exception:
+                    pass
+
+
 def body(ctx: H.BaseCtx):
+    if ctx.case.get("op") == "native-meta":
+        return body_meta(ctx)
     src = ctx.case["src"]
     mod = importlib.import_module("nv.checks." + src)
     mod.body_for(ctx.case)(ctx)
@@ -110,6 +163,8 @@ def gen_cases(tier: str, seed: int) -> List[Dict]:
         if src == "c19":
             cs = [c for c in cs if c["fn"] in ("lead", "const", "decompose", "set_dimensions")]
         pools[src] = cs
+    for ci, cfg in enumerate(configs if quick else configs[::4]):
+        cases.append({"id": "C15[%d]-native-meta" % ci, "op": "native-meta", "options": dict(cfg), "limits": lim})
     for ci, cfg in enumerate(configs):
         for src, restriction in SOURCES.items():
             pool = pools[src]
